@@ -208,7 +208,7 @@ def history(draw, kinds=('repo',)):
         cur = apply_op(cur, op, texts, corpus())
         texts.append(''.join(cur))
     names = draw(st.lists(st.booleans(), min_size=len(texts), max_size=len(texts)))
-    return {'version': v, 'texts': texts, 'used_names_before': names}
+    return {'version': v, 'texts': texts, 'used_names_before': names, 'debug_diff_parser': draw(st.integers(0, 9)) == 0}
 
 
 DOUBLE_BACKSLASH_EOF = re.compile(r'\\(?:\r\n|\r|\n)[ \t\f]*\\(?:\r\n|\r|\n)')
@@ -250,6 +250,12 @@ class C04(Prop):
         excluded = None
         classes = []
         m = None
+        import parso.python.diff as _diff
+        # one history in ten also runs with the library's own consistency asserts switched on (cross-check;
+        # the shipped configuration, DEBUG_DIFF_PARSER = False, is what the other nine see)
+        debug = bool(case.get('debug_diff_parser'))
+        old_debug = _diff.DEBUG_DIFF_PARSER
+        _diff.DEBUG_DIFF_PARSER = debug
         try:
             for i, text in enumerate(texts):
                 trigger = i > 0 and DOUBLE_BACKSLASH_EOF.search(texts[i - 1]) is not None
@@ -302,6 +308,7 @@ class C04(Prop):
         except RecursionError:
             excluded = 'recursion-limit'
         finally:
+            _diff.DEBUG_DIFF_PARSER = old_debug
             pcache.parser_cache.get(g._hashed, {}).pop(path, None)
         if any('\r' in t for t in texts):
             classes.append('cr')
@@ -311,6 +318,8 @@ class C04(Prop):
             classes.append('revisits-earlier-text')
         if any(flags):
             classes.append('used-names-memo')
+        if debug:
+            classes.append('with-DEBUG_DIFF_PARSER')
         classes.append('steps:%d' % min(len(texts) - 1, 9))
         return Outcome(fail=fail, nontrivial=nontrivial and fail is None or fail is not None, classes=sorted(set(classes)),
                        excluded=excluded, key=digest(v, texts), units=len(texts))
